@@ -50,11 +50,36 @@ func run(e *harness.Env) {
 	}
 	e.Note("band_pt", fmt.Sprint(bandPt))
 	partA(e)
+	partC(e)
 	partB(e)
 }
 
-func nontrivial(P int, hdr, ftr string, body bodyKind) bool {
-	return P >= 2 && (hdr != "none" || ftr != "none" || body.name != "unique")
+// inQuick prunes part (B) for the quick tier (part (A) is always run in full): near-band distance 80 only, no page
+// pairs of 4-page documents, mixed page sizes only with three APIs / both sides / no pairs, and for the single-side
+// modes only three of the eight result APIs on {all pages, last page alone} of documents of up to 3 pages.
+func inQuick(P int, body bodyKind, size string, sub []int, mode, api string) bool {
+	if body.off != 0 && body.off != 80 {
+		return false
+	}
+	if size == "mixed" && (mode != "both" || len(sub) == 2 || (api != "Text" && api != "Paragraphs" && api != "Document")) {
+		return false
+	}
+	if P == 4 && len(sub) == 2 {
+		return false
+	}
+	if mode != "both" {
+		if api != "Text" && api != "Lines" && api != "Document" {
+			return false
+		}
+		if P == 4 || (sub != nil && sub[len(sub)-1] != P) || len(sub) == 2 {
+			return false // single-side modes: all pages and the last page alone, documents of up to 3 pages
+		}
+	}
+	return true
+}
+
+func nontrivial(P int, hdr string, pn pnKind, body bodyKind) bool {
+	return P >= 2 && (hdr != "none" || pn.style != "none" || body.name != "unique")
 }
 
 // ---- (A) fragment sets -------------------------------------------------------------------------------
@@ -66,16 +91,16 @@ func fragOf(l lline) text.TextFragment {
 func partA(e *harness.Env) {
 	for P := 1; P <= 4; P++ {
 		for _, hdr := range hdrKinds {
-			for _, ftr := range ftrKinds {
+			for _, pn := range pnKinds(e.Thorough()) {
 				for _, body := range bodyKinds() {
-					for _, PH := range []float64{792, 842} {
+					for _, size := range []string{"letter", "a4", "mixed"} {
 						for _, order := range []string{"top-down", "bottom-up"} {
-							desc := harness.D("part", "frag", "P", P, "hdr", hdr, "ftr", ftr, "body", body.name, "off", body.off, "ph", PH, "order", order)
+							desc := harness.D("part", "frag", "P", P, "hdr", hdr, "pn", pn.style, "pnpos", pn.pos, "body", body.name, "off", body.off, "size", size, "order", order)
 							if !e.Own(desc) {
 								continue
 							}
 							e.Begin(desc)
-							d := buildDoc(P, hdr, ftr, body, PH)
+							d := buildDoc(P, hdr, pn, body, size)
 							var sig, det, out string
 							psig, pdet := harness.Guard(func() { sig, det, out = checkFragments(d, order) })
 							if psig != "" {
@@ -85,7 +110,7 @@ func partA(e *harness.Env) {
 								e.Fail(desc, sig, det, nil)
 								continue
 							}
-							e.Pass(desc, nontrivial(P, hdr, ftr, body), "frag:"+out)
+							e.Pass(desc, nontrivial(P, hdr, pn, body), "frag:"+out)
 						}
 					}
 				}
@@ -98,7 +123,7 @@ func checkFragments(d *ldoc, order string) (sig, detail, outcome string) {
 	pages := make([]layout.PageFragments, d.P)
 	byID := map[string]lline{}
 	for p := 0; p < d.P; p++ {
-		pf := layout.PageFragments{PageIndex: p, PageHeight: d.PH, PageWidth: d.PW}
+		pf := layout.PageFragments{PageIndex: p, PageHeight: d.PHs[p], PageWidth: d.PW}
 		ls := d.pages[p]
 		for i := range ls {
 			l := ls[i]
@@ -129,7 +154,7 @@ func checkFragments(d *ldoc, order string) (sig, detail, outcome string) {
 	}
 	for p := 0; p < d.P; p++ {
 		in := append([]text.TextFragment{}, pages[p].Fragments...)
-		out := res.FilterFragments(p, pages[p].Fragments, d.PH)
+		out := res.FilterFragments(p, pages[p].Fragments, d.PHs[p])
 		// 1. subsequence of unmodified fragments
 		j := 0
 		kept := map[string]bool{}
@@ -169,7 +194,7 @@ func checkFragments(d *ldoc, order string) (sig, detail, outcome string) {
 }
 
 func mustName(class string) string {
-	if class == "ftr" {
+	if class == "pagenum" {
 		return "page-number"
 	}
 	return "running-header"
@@ -319,8 +344,11 @@ func withMode(x *tabula.Extractor, mode string) *tabula.Extractor {
 func pdfOf(d *ldoc) []byte {
 	var doc pdfw.Doc
 	doc.Name = "c11"
-	for _, ls := range d.pages {
+	for p, ls := range d.pages {
 		var pg pdfw.Page
+		if d.PHs[p] != 792 {
+			pg.MediaBox = [4]float64{0, 0, d.PW, d.PHs[p]}
+		}
 		for _, l := range ls {
 			pg.Lines = append(pg.Lines, pdfw.Line{Font: pdfw.Type1WinAnsi, Text: l.text, X: l.x, Y: l.y, Size: l.h})
 		}
@@ -335,39 +363,44 @@ func partB(e *harness.Env) {
 	path := filepath.Join(dir, "doc.pdf")
 	for P := 1; P <= 4; P++ {
 		for _, hdr := range hdrKinds {
-			for _, ftr := range ftrKinds {
+			for _, pn := range pnKinds(e.Thorough()) {
 				for _, body := range bodyKinds() {
-					var d *ldoc
-					var data []byte
-					written := false
-					for _, sub := range subsets(P) {
-						for _, mode := range []string{"headers", "footers", "both"} {
-							for _, api := range apis {
-								desc := harness.D("part", "pdf", "P", P, "hdr", hdr, "ftr", ftr, "body", body.name, "off", body.off, "pages", subsetName(sub), "mode", mode, "api", api.name)
-								if !e.Own(desc) {
-									continue
-								}
-								e.Begin(desc)
-								if d == nil {
-									d = buildDoc(P, hdr, ftr, body, 792)
-									data = pdfOf(d)
-								}
-								if !written {
-									if err := os.WriteFile(path, data, 0o644); err != nil {
-										panic(err)
+					for _, size := range []string{"letter", "mixed"} {
+						var d *ldoc
+						var data []byte
+						written := false
+						for _, sub := range subsets(P) {
+							for _, mode := range []string{"headers", "footers", "both"} {
+								for _, api := range apis {
+									if !e.Thorough() && !inQuick(P, body, size, sub, mode, api.name) {
+										continue
 									}
-									written = true
+									desc := harness.D("part", "pdf", "P", P, "hdr", hdr, "pn", pn.style, "pnpos", pn.pos, "body", body.name, "off", body.off, "size", size, "pages", subsetName(sub), "mode", mode, "api", api.name)
+									if !e.Own(desc) {
+										continue
+									}
+									e.Begin(desc)
+									if d == nil {
+										d = buildDoc(P, hdr, pn, body, size)
+										data = pdfOf(d)
+									}
+									if !written {
+										if err := os.WriteFile(path, data, 0o644); err != nil {
+											panic(err)
+										}
+										written = true
+									}
+									var sig, det, out string
+									psig, pdet := harness.Guard(func() { sig, det, out = checkPDF(d, path, sub, mode, api) })
+									if psig != "" {
+										sig, det = psig, pdet
+									}
+									if sig != "" {
+										e.Fail(desc, sig, det, map[string][]byte{"input.pdf": data})
+										continue
+									}
+									e.Pass(desc, nontrivial(P, hdr, pn, body), out)
 								}
-								var sig, det, out string
-								psig, pdet := harness.Guard(func() { sig, det, out = checkPDF(d, path, sub, mode, api) })
-								if psig != "" {
-									sig, det = psig, pdet
-								}
-								if sig != "" {
-									e.Fail(desc, sig, det, map[string][]byte{"input.pdf": data})
-									continue
-								}
-								e.Pass(desc, nontrivial(P, hdr, ftr, body), out)
 							}
 						}
 					}
@@ -420,6 +453,16 @@ func isSubseq(sub, full []string) bool {
 	return true
 }
 
+func chars(toks []string) []string {
+	var o []string
+	for _, t := range toks {
+		for _, r := range t {
+			o = append(o, string(r))
+		}
+	}
+	return o
+}
+
 func toks(units []string) []string {
 	var o []string
 	for _, u := range units {
@@ -463,17 +506,15 @@ func checkPDF(d *ldoc, path string, sub []int, mode string, api apiFn) (sig, det
 	for _, p := range sub {
 		req[p-1] = true
 	}
-	exp := d.expectations(mode)
+	exp := d.expectations(mode, req)
 	var keys [][]string
 	seen := map[string]bool{}
-	want := map[string]int{}
 	anyMay := false
 	for _, l := range d.all() {
 		if !req[l.page] {
 			continue
 		}
-		want[l.text]++
-		if exp[l.text].may {
+		if exp[l.text].may > 0 {
 			anyMay = true
 		}
 		if !seen[l.text] {
@@ -484,23 +525,23 @@ func checkPDF(d *ldoc, path string, sub []int, mode string, api apiFn) (sig, det
 	show := func() string {
 		return fmt.Sprintf("unfiltered: %q\nfiltered:   %q", clip(strings.Join(U, " ")), clip(strings.Join(F, " ")))
 	}
-	uLines, ok, at := segment(U, keys)
-	if !ok {
-		return "baseline-unsegmentable", fmt.Sprintf("unfiltered %s output is not a sequence of the document's lines (token %d)\n%s", api.name, at, show()), ""
+	// 1. same order, only deletions. Decided on the character sequence without white space: some APIs glue
+	// neighbouring lines without a separator (Analyze renders "- 1 -" + next line as "- 1 -next"), which is not
+	// this property's business but changes token boundaries when a line disappears.
+	if !isSubseq(chars(F), chars(U)) {
+		return "not-subsequence", "the filtered output (white space ignored) is not a subsequence of the unfiltered one\n" + show(), ""
+	}
+	uLines, ok, _ := segment(U, keys)
+	if !ok || !isSubseq(F, U) {
+		// The API itself rewrites some line (ToMarkdown turns a leading number into list markup, ...): that is not
+		// this property's business. Fall back to the token-level form of clauses 2-4.
+		return checkTokens(d, exp, keys, U, F, anyMay, show)
 	}
 	cU := map[string]int{}
 	for _, l := range uLines {
 		cU[l]++
 	}
-	for t, n := range want {
-		if cU[t] < n {
-			return "baseline-incomplete", fmt.Sprintf("unfiltered %s output holds line %q %d times, document %d times\n%s", api.name, t, cU[t], n, show()), ""
-		}
-	}
-	// 1. same order, only deletions, whole lines
-	if !isSubseq(F, U) {
-		return "not-subsequence", "the filtered token sequence is not a subsequence of the unfiltered one\n" + show(), ""
-	}
+	// ... of whole lines
 	fLines, ok, at := segment(F, keys)
 	if !ok || !isSubseq(fLines, uLines) {
 		return "line-partially-deleted", fmt.Sprintf("the filtered output is not the unfiltered output minus whole lines (token %d)\n%s", at, show()), ""
@@ -512,37 +553,122 @@ func checkPDF(d *ldoc, path string, sub []int, mode string, api apiFn) (sig, det
 	bad := map[string]map[string]bool{}
 	var notes []string
 	removed, keptMay := map[string]bool{}, map[string]bool{}
+	partial := false
 	for _, key := range keys {
 		t := strings.Join(key, " ")
 		x := exp[t]
-		del := cU[t] - cF[t]
-		stem := ""
-		switch {
-		case del > 0 && !x.may:
-			stem = x.why
-			if !anyMay {
-				stem = "changed-without-repetition"
-			}
-			notes = append(notes, fmt.Sprintf("%s: line %q (class %s) deleted %d of %d times", stem, t, x.class, del, cU[t]))
-		case cF[t] > 0 && x.must:
-			stem = "kept-" + mustName(x.class)
-			notes = append(notes, fmt.Sprintf("%s: line %q still present %d times", stem, t, cF[t]))
-		case del > 0:
-			removed[x.class] = true
-		case x.may:
-			keptMay[x.class] = true
+		if cU[t] < x.n {
+			// the API does not report (every instance of) this line even without exclusion, e.g. Blocks() never
+			// reports a lone short page number: nothing to compare for that line
+			partial = true
+			continue
 		}
-		if stem != "" {
+		del := cU[t] - cF[t]
+		flag := func(stem, class, note string) {
 			if bad[stem] == nil {
 				bad[stem] = map[string]bool{}
 			}
-			bad[stem][x.class] = true
+			bad[stem][class] = true
+			notes = append(notes, stem+": "+note)
+		}
+		if del > x.may {
+			stem := x.why
+			if !anyMay {
+				stem = "changed-without-repetition"
+			}
+			flag(stem, x.class, fmt.Sprintf("line %q (class %s): %d of %d instances deleted, %d removable", t, x.class, del, cU[t], x.may))
+		}
+		if del < x.must {
+			flag("kept-"+mustName(x.mustClass), x.mustClass, fmt.Sprintf("line %q: %d of %d instances deleted, %d have to go", t, del, cU[t], x.must))
+		}
+		if del > 0 && del <= x.may {
+			removed[x.mayClassOr()] = true
+		}
+		if del < x.may {
+			keptMay[x.mayClassOr()] = true
 		}
 	}
 	if len(bad) > 0 {
 		return badSig(bad), strings.Join(notes, "\n") + "\n" + show(), ""
 	}
-	n := len(req)
-	_ = n
-	return "", "", fmt.Sprintf("pdf:removed=%s:removable-kept=%s", joinSorted(removed), joinSorted(keptMay))
+	kind := "pdf"
+	if partial {
+		kind = "pdf-api-drops-lines-unfiltered"
+	}
+	return "", "", fmt.Sprintf("%s:removed=%s:removable-kept=%s", kind, joinSorted(removed), joinSorted(keptMay))
+}
+
+// checkTokens is the token-level form of the oracle, used when the unfiltered output of an API is not a plain
+// sequence of the document's lines. For every token of the document's lines: the drop of its count is at most the
+// number of removable line instances that contain it and, when the unfiltered output holds all its instances, at
+// least the number of must-delete instances that contain it.
+func checkTokens(d *ldoc, exp map[string]*expect, keys [][]string, U, F []string, anyMay bool, show func() string) (sig, detail, outcome string) {
+	type owner struct {
+		n, may, must          int
+		why, class, mustClass string
+		mayClass              string
+	}
+	own := map[string]*owner{}
+	var order []string
+	for _, key := range keys {
+		x := exp[strings.Join(key, " ")]
+		for _, t := range key {
+			o := own[t]
+			if o == nil {
+				o = &owner{}
+				own[t] = o
+				order = append(order, t)
+			}
+			o.n += x.n
+			o.may += x.may
+			o.must += x.must
+			if x.may < x.n {
+				o.why, o.class = x.why, x.class
+			}
+			if x.may > 0 {
+				o.mayClass = x.mayClassOr()
+			}
+			if x.must > 0 {
+				o.mustClass = x.mustClass
+			}
+		}
+	}
+	cU, cF := map[string]int{}, map[string]int{}
+	for _, t := range U {
+		cU[t]++
+	}
+	for _, t := range F {
+		cF[t]++
+	}
+	bad := map[string]map[string]bool{}
+	var notes []string
+	removed := map[string]bool{}
+	flag := func(stem, class, note string) {
+		if bad[stem] == nil {
+			bad[stem] = map[string]bool{}
+		}
+		bad[stem][class] = true
+		notes = append(notes, stem+": "+note)
+	}
+	for _, t := range order {
+		o := own[t]
+		del := cU[t] - cF[t]
+		if del > o.may {
+			stem := o.why
+			if !anyMay {
+				stem = "changed-without-repetition"
+			}
+			flag(stem, o.class, fmt.Sprintf("token %q (line class %s): count dropped by %d, %d removable instances", t, o.class, del, o.may))
+		}
+		if cU[t] >= o.n && del < o.must {
+			flag("kept-"+mustName(o.mustClass), o.mustClass, fmt.Sprintf("token %q: count dropped by %d, %d instances have to go", t, del, o.must))
+		}
+		if del > 0 && del <= o.may {
+			removed[o.mayClass] = true
+		}
+	}
+	if len(bad) > 0 {
+		return badSig(bad), strings.Join(notes, "\n") + "\n" + show(), ""
+	}
+	return "", "", "pdf-token-level:removed=" + joinSorted(removed)
 }
